@@ -268,6 +268,44 @@ def robustness_checks():
     if delivered != src.given[:len(delivered)]:
         bad.append(dict(script=dict(kind='BatchGenerator(BatchGenerator(source, 2), 5)'), violated='delivered batches are not a prefix of the draws of the source',
                         delivered=delivered[:10], drawn=src.given[:10]))
+    # coordinates of different types in one draw (an integer id next to float positions): every coordinate keeps its type and its values
+    class Mixed(BaseGenerator):
+        def __init__(self):
+            super().__init__()
+            self.size, self.k, self.ids = 3, 0, []
+
+        def get_examples(self):
+            ids = torch.tensor([2 ** 53 + 1 + 3 * self.k + i for i in range(3)], dtype=torch.int64)
+            self.k += 1
+            self.ids += ids.tolist()
+            return ids, ids.to(torch.float32) * 0 + torch.arange(3, dtype=torch.float32) + 0.5
+    src = Mixed()
+    bg = BatchGenerator(src, 2)
+    got_ids = []
+    for call in range(4):
+        b = bg.get_examples()
+        if b[0].dtype != torch.int64 or b[1].dtype != torch.float32:
+            bad.append(dict(script=dict(kind='int64 ids next to float32 positions'), violated=f'batch {call}: coordinate types {b[0].dtype}, {b[1].dtype}'))
+            break
+        got_ids += b[0].tolist()
+    if got_ids != src.ids[:len(got_ids)]:
+        bad.append(dict(script=dict(kind='int64 ids next to float32 positions'), violated='delivered ids differ from the ids drawn', delivered=got_ids[:6], drawn=src.ids[:6]))
+    # the batch size given as a 0-d integer tensor / numpy integer (computed from data): same stream, same batch sizes
+    import numpy as _np
+    for what, bsz in (('0-d int64 tensor', torch.tensor(2)), ('numpy.int64', _np.int64(2))):
+        src = Ints(torch.float64)
+        try:
+            bg = BatchGenerator(src, bsz)
+            sizes, delivered = [], []
+            for _ in range(5):
+                b = bg.get_examples()
+                sizes.append(len(b))
+                delivered += b.tolist()
+            if sizes != [2] * 5 or delivered != src.given[:10]:
+                bad.append(dict(script=dict(kind=f'batch size given as a {what}'), violated='batches do not have the requested size / are not a prefix of the draws',
+                                sizes=sizes, delivered=delivered[:10], drawn=src.given[:10]))
+        except Exception as e:
+            bad.append(dict(script=dict(kind=f'batch size given as a {what}'), violated=f'{type(e).__name__}: {e}'))
     class Widening(BaseGenerator):
         def __init__(self):
             super().__init__()
